@@ -10,6 +10,7 @@ package harness
 import (
 	"context"
 	"sort"
+	"strings"
 	"encoding/json"
 	"errors"
 	"fmt"
@@ -1219,6 +1220,399 @@ func FamEndWhileClosureRuns(seed int64, variant int) SysRecord {
 		rec.Calls = append(rec.Calls, cl)
 	case <-time.After(3 * time.Second):
 		rec.Calls = append(rec.Calls, SysCall{Tag: 990, From: "A", Method: "InFlightAtEnd", Extra: rec.Config + ": DID-NOT-RETURN within 3 s"})
+	}
+	return rec
+}
+
+// FamDeadlineEnd — C15: the link context ends by its DEADLINE (context.DeadlineExceeded is a timeout error in
+// the sense of net.Error) and the transport's reads return the context's error from then on, every time they
+// are called (a transport wrapper that honours the context). After Link has returned nothing may remain: the
+// remote is deregistered, the disconnect notification is delivered, no goroutine of panrpc is still running.
+func FamDeadlineEnd(seed int64, stream bool) SysRecord {
+	api := map[bool]string{false: "message", true: "stream"}[stream]
+	rec := SysRecord{Family: "earlycancel", Config: "json-raw/" + api + " link context ends by its deadline, reads return the context's error", Seed: seed}
+	w := newWorld()
+	node := NewSysNode[json.RawMessage](w, "A")
+	c := jsonRawCodec()
+	time.Sleep(10 * time.Millisecond)
+	before := goroutineStacks()
+	ctx, cancel := context.WithTimeout(context.Background(), 40*time.Millisecond)
+	defer cancel()
+	errc := make(chan error, 1)
+	read := func() (json.RawMessage, error) { <-ctx.Done(); return nil, ctx.Err() }
+	sink := func(b json.RawMessage) error { return nil }
+	if !stream {
+		go func() { errc <- node.Reg.LinkMessage(ctx, sink, sink, read, read, c.Marshal, c.Unmarshal, nil) }()
+	} else {
+		dec := func(v *rpc.Message[json.RawMessage]) error { <-ctx.Done(); return ctx.Err() }
+		enc := func(v rpc.Message[json.RawMessage]) error { return nil }
+		go func() { errc <- node.Reg.LinkStream(ctx, enc, dec, c.Marshal, c.Unmarshal, nil) }()
+	}
+	select {
+	case err := <-errc:
+		if !errors.Is(err, context.DeadlineExceeded) {
+			rec.Notes = append(rec.Notes, "DEADLINE-END Link returned "+errText(err)+", expected the context's error (context deadline exceeded)")
+		}
+	case <-time.After(3 * time.Second):
+		rec.Notes = append(rec.Notes, "DEADLINE-END Link did not return within 3 s after its context's deadline")
+	}
+	cancel()
+	if !waitUntil(func() bool { return len(node.Remotes()) == 0 }, 2*time.Second) {
+		rec.Notes = append(rec.Notes, "DEADLINE-END 2 s after the link ended by its deadline and its reads returned the context's error, the remote is still enumerated (no disconnect notification): the read loops never stopped")
+	}
+	time.Sleep(100 * time.Millisecond)
+	var left []string
+	for id, g := range goroutineStacks() {
+		if _, ok := before[id]; !ok && strings.Contains(g, "panrpc/go/pkg/rpc.") {
+			left = append(left, strings.SplitN(g, "\n", 2)[0])
+		}
+	}
+	if len(left) > 0 {
+		sort.Strings(left)
+		rec.Notes = append(rec.Notes, fmt.Sprintf("DEADLINE-END goroutines started by panrpc still run after the link ended by its deadline: %v", left))
+	}
+	rec.Events = w.Events()
+	return rec
+}
+
+// FamLinkHooksOnly — C14 "this applies to the registry-wide hooks and to the hooks supplied for the individual
+// link": a registry created WITHOUT registry-wide hooks (nil), or with a connect hook only, whose links get hooks
+// of their own: each link's own connect and disconnect notification is delivered exactly once.
+func FamLinkHooksOnly(seed int64, variant int) SysRecord {
+	what := []string{"no registry-wide hooks (nil)", "registry-wide connect hook only"}[variant]
+	rec := SysRecord{Family: "earlycancel", Config: "json-raw/message " + what + ", hooks supplied for the link", Seed: seed}
+	w := newWorld()
+	local := &sysLocal{w: w, node: "L"}
+	var rh *rpc.RegistryHooks
+	if variant == 1 {
+		rh = &rpc.RegistryHooks{OnClientConnect: func(id string) {}}
+	}
+	reg := rpc.NewRegistry[sysRemote, json.RawMessage](local, rh)
+	c := jsonRawCodec()
+	var mu sync.Mutex
+	var conn, disc []string
+	lh := &rpc.LinkHooks{
+		OnClientConnect:    func(id string) { mu.Lock(); conn = append(conn, id); mu.Unlock() },
+		OnClientDisconnect: func(id string) { mu.Lock(); disc = append(disc, id); mu.Unlock() },
+	}
+	ctx, cancel := context.WithCancel(context.Background())
+	defer cancel()
+	reqIn, resIn := newFailQ(), newFailQ()
+	sink := func(b json.RawMessage) error { return nil }
+	errc := make(chan error, 1)
+	go func() { errc <- reg.LinkMessage(ctx, sink, sink, reqIn.Get, resIn.Get, c.Marshal, c.Unmarshal, lh) }()
+	if !waitUntil(func() bool { mu.Lock(); defer mu.Unlock(); return len(conn) == 1 }, 2*time.Second) {
+		rec.Notes = append(rec.Notes, "LINK-HOOKS the link's own connect notification was not delivered")
+	}
+	reqIn.fail <- io.EOF
+	resIn.fail <- io.EOF
+	select {
+	case <-errc:
+	case <-time.After(3 * time.Second):
+		rec.Notes = append(rec.Notes, "LINK-HOOKS Link did not return after both reads failed")
+	}
+	enumerated := func() int {
+		n := 0
+		reg.ForRemotes(func(string, sysRemote) error { n++; return nil })
+		return n
+	}
+	waitUntil(func() bool { return enumerated() == 0 }, 2*time.Second)
+	ok := waitUntil(func() bool { mu.Lock(); defer mu.Unlock(); return len(disc) == 1 }, 2*time.Second)
+	mu.Lock()
+	if !ok || len(conn) != 1 || len(disc) != 1 || conn[0] != disc[0] {
+		rec.Notes = append(rec.Notes, fmt.Sprintf("LINK-HOOKS the link has ended, its reads have returned and it is no longer enumerated (%d remotes), but the hooks supplied for the link saw connect %v / disconnect %v: exactly one of each with the same identifier is required", enumerated(), conn, disc))
+	}
+	mu.Unlock()
+	return rec
+}
+
+// FamNilCtx — C05: a call made with a nil context (an application mistake panrpc detects at run time). The call
+// returns an error, the link ends with that error, and nothing is left deadlocked: Link returns, later calls fail
+// at once, the remote is deregistered.
+func FamNilCtx(seed int64, stream bool) SysRecord {
+	api := map[bool]string{false: "message", true: "stream"}[stream]
+	rec := SysRecord{Family: "linkend", Config: "json-raw/" + api + " a call is made with a nil context", Seed: seed}
+	w := newWorld()
+	node := NewSysNode[json.RawMessage](w, "A")
+	c := jsonRawCodec()
+	ctx, cancel := context.WithCancel(context.Background())
+	defer cancel()
+	errc := make(chan error, 1)
+	reqIn, resIn := newFailQ(), newFailQ()
+	sink := func(b json.RawMessage) error { return nil }
+	if !stream {
+		go func() { errc <- node.Reg.LinkMessage(ctx, sink, sink, reqIn.Get, resIn.Get, c.Marshal, c.Unmarshal, nil) }()
+	} else {
+		dec := func(v *rpc.Message[json.RawMessage]) error { <-ctx.Done(); return ctx.Err() }
+		enc := func(v rpc.Message[json.RawMessage]) error { return nil }
+		go func() { errc <- node.Reg.LinkStream(ctx, enc, dec, c.Marshal, c.Unmarshal, nil) }()
+	}
+	defer func() {
+		cancel()
+		other := errors.New("closed")
+		select {
+		case reqIn.fail <- other:
+		default:
+		}
+		select {
+		case resIn.fail <- other:
+		default:
+		}
+	}()
+	if !WaitRemotes(node, 1) {
+		rec.Notes = append(rec.Notes, "link did not come up")
+		return rec
+	}
+	var rem sysRemote
+	for _, x := range node.Remotes() {
+		rem = x
+	}
+	done := make(chan SysCall, 1)
+	go func() {
+		var nilCtx context.Context
+		v, err := rem.EchoInt(nilCtx, 995, 1)
+		done <- SysCall{Tag: 995, From: "A", Method: "InFlightAtEnd", Ret: canon(v), Err: errText(err), Extra: rec.Config, Done: true}
+	}()
+	select {
+	case cl := <-done:
+		rec.Calls = append(rec.Calls, cl)
+	case <-time.After(3 * time.Second):
+		rec.Calls = append(rec.Calls, SysCall{Tag: 995, From: "A", Method: "InFlightAtEnd", Extra: rec.Config + ": DID-NOT-RETURN within 3 s"})
+	}
+	select {
+	case err := <-errc:
+		rec.Calls = append(rec.Calls, SysCall{Tag: 996, Method: "LinkReturn", Ret: "returned", Err: errText(err), Extra: rec.Config, Done: true})
+	case <-time.After(3 * time.Second):
+		rec.Calls = append(rec.Calls, SysCall{Tag: 996, Method: "LinkReturn", Ret: "DID-NOT-RETURN within 3 s (goroutines deadlocked inside panrpc)", Extra: rec.Config})
+	}
+	lctx, lcancel := context.WithTimeout(context.Background(), 2*time.Second)
+	t0 := time.Now()
+	ldone := make(chan error, 1)
+	go func() { _, err := rem.EchoInt(lctx, 997, 2); ldone <- err }()
+	select {
+	case err := <-ldone:
+		rec.Calls = append(rec.Calls, SysCall{Tag: 997, From: "A", Method: "LaterCall", Err: errText(err), Extra: fmt.Sprintf("%s: took %v", rec.Config, time.Since(t0) > time.Second), Done: true})
+	case <-time.After(4 * time.Second):
+		rec.Calls = append(rec.Calls, SysCall{Tag: 997, From: "A", Method: "LaterCall", Err: "", Extra: rec.Config + ": took true (never returned)", Done: true})
+		rec.Hang = true
+	}
+	lcancel()
+	return rec
+}
+
+// FamRelayBack — C13: a handler serving link 1 relays the call over link 0 and hands whatever that call returns
+// back to its own caller. Link 0 fails while the relayed call is in flight: the relayed call fails with the
+// library's own "closed" error, which the handler returns UNCHANGED to the peer of link 1 - an ordinary
+// application-level error there. Link 1 itself, its Link call, later calls on it are unaffected.
+func FamRelayBack[T any](c Codec[T], seed int64) SysRecord {
+	rec := SysRecord{Family: "relay", Config: c.Name + "/a handler hands back the error of a call it relayed over a link that failed", Seed: seed}
+	w := newWorld()
+	hub := NewSysNode[T](w, "H")
+	spokes := []*SysNode[T]{NewSysNode[T](w, "S0"), NewSysNode[T](w, "S1")}
+	var links []*SysLink[T]
+	var hubRem [2]sysRemote
+	for i := 0; i < 2; i++ {
+		before := hub.Remotes()
+		links = append(links, Connect(w, hub, spokes[i], c, (seed+int64(i))%2 == 0, -1, seed+int64(i)))
+		if !WaitRemotes(hub, i+1) || !WaitRemotes(spokes[i], 1) {
+			rec.Notes = append(rec.Notes, "link did not come up")
+			return rec
+		}
+		for id, r := range hub.Remotes() {
+			if _, old := before[id]; !old {
+				hubRem[i] = r
+			}
+		}
+	}
+	var s1rem sysRemote
+	for _, r := range spokes[1].Remotes() {
+		s1rem = r
+	}
+	w.mu.Lock()
+	w.relay = func() (sysRemote, bool) { return hubRem[0], true }
+	w.mu.Unlock()
+	ctx, cancel := context.WithTimeout(context.Background(), 20*time.Second)
+	defer cancel()
+	relayDone := make(chan SysCall, 1)
+	go func() {
+		v, err := s1rem.Relay(ctx, 820)
+		relayDone <- SysCall{Tag: 820, From: "S1", Method: "RelayedOverFailedLink", Ret: canon(v), Err: errText(err), Done: true}
+	}()
+	if !waitUntil(func() bool { return hasInv(w, "Gate", 823) }, 4*time.Second) {
+		rec.Notes = append(rec.Notes, "the relayed call did not reach its handler")
+	}
+	// link 0 fails (transport), nothing happens on link 1
+	links[0].CloseTransport(errors.New("transport closed"))
+	select {
+	case cl := <-relayDone:
+		rec.Calls = append(rec.Calls, cl)
+	case <-time.After(4 * time.Second):
+		rec.Calls = append(rec.Calls, SysCall{Tag: 820, From: "S1", Method: "RelayedOverFailedLink", Err: "DID-NOT-RETURN", Done: true})
+	}
+	time.Sleep(50 * time.Millisecond)
+	for k, ch := range []chan error{links[1].ErrA, links[1].ErrB} {
+		select {
+		case e := <-ch:
+			rec.Calls = append(rec.Calls, SysCall{Tag: 824 + k, Method: "OtherLinkStillUp", Ret: "RETURNED", Err: errText(e), Extra: []string{"the hub's side", "the spoke's side"}[k], Done: true})
+			ch <- e
+		default:
+			rec.Calls = append(rec.Calls, SysCall{Tag: 824 + k, Method: "OtherLinkStillUp", Ret: "up", Extra: []string{"the hub's side", "the spoke's side"}[k], Done: true})
+		}
+	}
+	for k, rem := range []sysRemote{s1rem, hubRem[1]} {
+		pctx, pcancel := context.WithTimeout(ctx, 3*time.Second)
+		v, err := rem.EchoInt(pctx, 826+k, 42)
+		pcancel()
+		rec.Calls = append(rec.Calls, SysCall{Tag: 826 + k, From: []string{"S1", "H"}[k], Method: "ProbeOtherLink", Ret: canon(v), Err: errText(err), Done: true})
+	}
+	close(w.gate(823))
+	for i, l := range links {
+		l.CancelA()
+		l.CancelB()
+		l.CloseTransport(errors.New("transport closed"))
+		for _, e := range []chan error{l.ErrA, l.ErrB} {
+			select {
+			case <-e:
+			case <-time.After(5 * time.Second):
+				rec.Notes = append(rec.Notes, fmt.Sprintf("link %d did not return", i))
+			}
+		}
+	}
+	rec.Events = w.Events()
+	return rec
+}
+
+// FamMassEnd — C03: several hundred calls are in flight (their handlers stalled) when the link's context is
+// cancelled: every one of them returns a non-nil error promptly, and so does Link - however many failures are
+// reported at once.
+func FamMassEnd(seed int64, stream bool) SysRecord {
+	api := map[bool]string{false: "message", true: "stream"}[stream]
+	const many = 300
+	rec := SysRecord{Family: "linkend", Config: fmt.Sprintf("json-raw/%s %d calls in flight when the link context is cancelled", api, many), Seed: seed}
+	p, err := newPair(jsonRawCodec(), stream, -1, seed)
+	if err != nil {
+		rec.Notes = append(rec.Notes, err.Error())
+		return rec
+	}
+	results := make(chan error, many)
+	for k := 0; k < many; k++ {
+		go func() { _, err := p.ra.Gate(context.Background(), 60000); results <- err }()
+	}
+	if !waitUntil(func() bool {
+		n := 0
+		for _, e := range p.w.Events() {
+			if e.Kind == "inv" && e.Method == "Gate" && e.Tag == 60000 {
+				n++
+			}
+		}
+		return n == many
+	}, 8*time.Second) {
+		rec.Notes = append(rec.Notes, "not all calls reached their handlers")
+	}
+	p.l.CancelA()
+	returned, nilerr := 0, 0
+	deadline := time.After(6 * time.Second)
+loop:
+	for returned < many {
+		select {
+		case err := <-results:
+			returned++
+			if err == nil {
+				nilerr++
+			}
+		case <-deadline:
+			break loop
+		}
+	}
+	if returned < many {
+		rec.Calls = append(rec.Calls, SysCall{Tag: 60000, From: "A", Method: "InFlightAtEnd", Extra: fmt.Sprintf("%s: %d of %d in-flight calls DID-NOT-RETURN within 6 s after the link ended", rec.Config, many-returned, many)})
+	} else {
+		e := "closed"
+		if nilerr > 0 {
+			e = ""
+		}
+		rec.Calls = append(rec.Calls, SysCall{Tag: 60000, From: "A", Method: "InFlightAtEnd", Err: e, Extra: rec.Config, Done: true})
+	}
+	select {
+	case err := <-p.l.ErrA:
+		rec.Calls = append(rec.Calls, SysCall{Tag: 60001, Method: "LinkReturn", Ret: "returned", Err: errText(err), Extra: rec.Config, Done: true})
+		p.l.ErrA <- err
+	case <-time.After(3 * time.Second):
+		rec.Calls = append(rec.Calls, SysCall{Tag: 60001, Method: "LinkReturn", Ret: "DID-NOT-RETURN within 3 s", Extra: rec.Config})
+	}
+	close(p.w.gate(60000))
+	p.close()
+	return rec
+}
+
+// FamLinkEndMore — C16: (0) the link context is cancelled while the connect notification of that link is still
+// running (the hook blocks): Link returns the context's error promptly, it does not wait for the hook;
+// (1), (2) the write of the response of a handler that returned (value, error) resp. an error only fails: that
+// transport error is the first failure of the link, Link returns it although both reads stay blocked.
+func FamLinkEndMore(seed int64, variant int) SysRecord {
+	what := []string{"link context cancelled while the link's connect notification is still running",
+		"response write fails with plain (handler returned a value and an error)",
+		"response write fails with plain (handler returned an error only)"}[variant]
+	rec := SysRecord{Family: "linkend", Config: "json-raw/message " + what, Seed: seed}
+	w := newWorld()
+	c := jsonRawCodec()
+	ctx, cancel := context.WithCancel(context.Background())
+	defer cancel()
+	errc := make(chan error, 1)
+	reqIn, resIn := newFailQ(), newFailQ()
+	defer func() {
+		cancel()
+		other := errors.New("closed")
+		select {
+		case reqIn.fail <- other:
+		default:
+		}
+		select {
+		case resIn.fail <- other:
+		default:
+		}
+	}()
+	sink := func(b json.RawMessage) error { return nil }
+	if variant == 0 {
+		local := &sysLocal{w: w, node: "L"}
+		inHook, release := make(chan struct{}), make(chan struct{})
+		var once sync.Once
+		defer once.Do(func() { close(release) })
+		reg := rpc.NewRegistry[sysRemote, json.RawMessage](local, &rpc.RegistryHooks{OnClientConnect: func(id string) { close(inHook); <-release }})
+		go func() { errc <- reg.LinkMessage(ctx, sink, sink, reqIn.Get, resIn.Get, c.Marshal, c.Unmarshal, nil) }()
+		select {
+		case <-inHook:
+		case <-time.After(3 * time.Second):
+			rec.Notes = append(rec.Notes, "the connect notification was not delivered")
+			return rec
+		}
+		cancel()
+		select {
+		case err := <-errc:
+			rec.Calls = append(rec.Calls, SysCall{Tag: 998, Method: "LinkReturn", Ret: "returned", Err: errText(err), Oracle: "context canceled", Extra: rec.Config, Done: true})
+		case <-time.After(3 * time.Second):
+			rec.Calls = append(rec.Calls, SysCall{Tag: 998, Method: "LinkReturn", Ret: "DID-NOT-RETURN within 3 s (it waits for the connect notification to finish)", Oracle: "context canceled", Extra: rec.Config})
+		}
+		once.Do(func() { close(release) })
+		return rec
+	}
+	node := NewSysNode[json.RawMessage](w, "A")
+	bad := func(b json.RawMessage) error { return errors.New("connection reset by peer") }
+	go func() { errc <- node.Reg.LinkMessage(ctx, sink, bad, reqIn.Get, resIn.Get, c.Marshal, c.Unmarshal, nil) }()
+	if !WaitRemotes(node, 1) {
+		rec.Notes = append(rec.Notes, "link did not come up")
+		return rec
+	}
+	if variant == 1 {
+		reqIn.ch <- json.RawMessage(`{"call":"p1","function":"FailVal","args":[970,5,"application error"]}`)
+	} else {
+		reqIn.ch <- json.RawMessage(`{"call":"p1","function":"Fail","args":[970,"application error"]}`)
+	}
+	select {
+	case err := <-errc:
+		rec.Calls = append(rec.Calls, SysCall{Tag: 998, Method: "LinkReturn", Ret: "returned", Err: errText(err), Extra: rec.Config, Done: true})
+	case <-time.After(3 * time.Second):
+		rec.Calls = append(rec.Calls, SysCall{Tag: 998, Method: "LinkReturn", Ret: "DID-NOT-RETURN within 3 s", Extra: rec.Config})
 	}
 	return rec
 }
